@@ -30,7 +30,7 @@ def n_cases(tier):
 def gen_case(rng, tier, idx):
     if idx % 4 == 3:
         return {"kind": "api", "steps": rng.randint(5, 40)}
-    n = rng.choice([0, 1, 2, 3, 4, 5, 6, 8, 12, 31, 32, 33, 64, 65])
+    n = rng.choice([0, 1, 2, 3, 4, 5, 6, 8, 12, 31, 32, 33]) if rng.random() < 0.93 else rng.choice([64, 65, 128, 129])
     trig = [rng.choice(["level", "rise", "fall"]) for _ in range(n)]
     # add order: a shuffled order with repeats interleaved
     order = list(range(n))
